@@ -64,6 +64,11 @@ def case(draw, tier):
         c["recast_missing"] = draw(st.sampled_from([None, None, "NA", 0]))
         c["variables_given"] = draw(st.booleans())
         c["samplesize"] = draw(st.sampled_from([None, None, "exact", "plus1"]))
+        # variables= as a proper, re-ordered subset of the non-key fields (positions in the list of non-key fields), and
+        # custom names for the two molten fields
+        nvar = nf - len(kidx)
+        c["var_subset"] = draw(st.lists(st.integers(0, nvar - 1), min_size=1, max_size=nvar, unique=True)) if (nvar >= 2 and draw(st.integers(0, 2)) == 0) else None
+        c["molten_names"] = draw(st.sampled_from([None, None, ["var", "val"]]))
     elif op in ("transpose", "flatten", "dicts", "columns"):
         cell = st.one_of(gen.scalar, gen.value)
         c["table"] = draw(gen.table(list(hdr), [cell] * nf, max_rows=maxrows, min_rows=1 if op == "dicts" else 0))
@@ -127,11 +132,18 @@ def check(case, ctx):
             form = case["keyform"]
             karg = key if form == "names" else kidx if form == "indices" else (key[0] if len(key) == 1 else key)
             kw = {"key": karg}
-            if case["variables_given"] and vidx:
+            if case.get("var_subset"):
+                vidx = [vidx[j] for j in case["var_subset"] if j < len(vidx)]
                 kw["variables"] = [hdr[i] for i in vidx]
+                ctx.label("variables-subset")
+            elif case["variables_given"] and vidx:
+                kw["variables"] = [hdr[i] for i in vidx]
+            mn = case.get("molten_names")
+            nkw = {"variablefield": mn[0], "valuefield": mn[1]} if mn else {}
+            mn = mn or ["variable", "value"]
             ctx.nontrivial(len(rows) >= 2 and len(vidx) >= 2)
-            molten = _T(etl.melt(T, **kw))
-            exp_m = [tuple(key) + ("variable", "value")] + [tuple(r[i] for i in kidx) + (hdr[v], r[v]) for r in rows for v in vidx]
+            molten = _T(etl.melt(T, **dict(kw, **nkw)))
+            exp_m = [tuple(key) + tuple(mn)] + [tuple(r[i] for i in kidx) + (hdr[v], r[v]) for r in rows for v in vidx]
             # exactly one row per (row, variable) cell: a multiset statement; the header is exact
             if not codec.strict_eq(molten[:1], exp_m[:1]) or not R.same_multiset(molten[1:], exp_m[1:]) or \
                     sorted(map(codec.dumps, molten[1:])) != sorted(map(codec.dumps, exp_m[1:])):
@@ -146,7 +158,7 @@ def check(case, ctx):
                     rkw["samplesize"] = len(vidx) + (1 if case["samplesize"] == "plus1" else 0)
                     ctx.label("samplesize:" + case["samplesize"])
                 # every (key, variable) pair has exactly one value - None included - so `missing` must never be used
-                back = _T(etl.recast(molten, key=key if len(key) > 1 else key[0], **rkw))
+                back = _T(etl.recast(molten, key=key if len(key) > 1 else key[0], **dict(rkw, **nkw)))
                 vsorted = sorted(vidx, key=lambda i: hdr[i])
                 srt = sorted(rows, key=lambda r: ref_key(R.keyof(r, kidx)))
                 exp_b = [tuple(key) + tuple(hdr[i] for i in vsorted)] + [tuple(r[i] for i in kidx) + tuple(r[i] for i in vsorted) for r in srt]
